@@ -48,7 +48,8 @@ Req(e) == \/ e.kind = "end_ball" /\ EndBall
 Step(e) ==
     \* lines that belong to a player-add pipeline of an earlier game object say nothing about this game
     \/ e.stale /\ UNCHANGED vars
-    \/ ~e.stale /\ e.op = "ev" /\ Ev(e) /\ ObsOK(s', e)
+    \* (the handlers of player_add_request run before its callback creates the player)
+    \/ ~e.stale /\ e.op = "ev" /\ Ev(e) /\ ObsOK(IF e.name = "player_add_request" THEN s ELSE s', e)
     \/ ~e.stale /\ e.op = "req" /\ CtxOK(e) /\ Req(e) /\ ObsOK(s', e)
     \/ ~e.stale /\ e.op = "rest" /\ Quiescent(s) /\ ObsOK(s, e) /\ UNCHANGED vars
 Silent == (Adv \/ \E p \in P : PComplete(p)) /\ UNCHANGED <<tid, l>>
